@@ -15,7 +15,7 @@ def evaluations(prop, agg, results):
 
 
 def build(prop, tier, base, mod, results, agg, nontrivial, samples, wall, wall_runs, workers,
-          n_viol, exhausted, params, known_hits):
+          n_viol, exhausted, params, known_hits, sets=None):
     ev_n = evaluations(prop, agg, results)
     cov = {'evaluations': ev_n,
            'distinct_nontrivial': len(nontrivial),
@@ -36,6 +36,8 @@ def build(prop, tier, base, mod, results, agg, nontrivial, samples, wall, wall_r
            'seeds': {'base': base, 'derivation': 'blake2b("%s:<VERIF_SEED>:<run index>")' % prop,
                      'first_run_seeds': [r['seed'] for r in results[:5]]},
            'run_digest': util.digest([[r['i'], r['digest']] for r in results])}
+    for name, vals in sorted((sets or {}).items()):
+        cov['distinct_' + name] = len(vals)
     probes = agg.get('probes', {})
     stuck = [p for p in getattr(mod, 'PROBES', ()) if not probes.get(p)]
     cov['reach_probes_stuck_at_zero'] = stuck
